@@ -959,7 +959,7 @@ Definition c06e_run (case obs : sx) : verdict :=
    Pipeline.In, CRI rows with antispam on:                      [in_shortcut]: saved o -> (0 <? o) && (offset <? o)
        streamOffset > 0 && currentOffset < streamOffset -> drop     (ByStream = -1 when the stream is not saved)
    decoder + stream_field of the pipeline settings              dc : bytes -> option (stream, payload, partial): what the
-                                                                decoder makes of the admitted bytes (None: undecodable,
+                                                                decoder makes of the accepted bytes (None: undecodable,
                                                                 the event goes back to the pool); [json_decode] (the two
                                                                 line shapes the generators write), [cri_decode] (DecodeCRI)
    jobProvider.commit: job.offsets[stream] = event.Offset       NOT in the state: an event of stream s is committed only
@@ -1008,7 +1008,7 @@ Definition sdeliver1 (dc : decoder) (sc : bool) (sv : saved) (c : wcfg) (e : emi
 Definition sdeliver (dc : decoder) (sc : bool) (sv : saved) (c : wcfg) (es : list emit) : list sevent :=
   flat_map (sdeliver1 dc sc sv c) es.
 
-(* the admitted and decoded lines, whatever was delivered before *)
+(* the accepted and decoded lines, whatever was delivered before *)
 Definition sdecoded1 (dc : decoder) (c : wcfg) (e : emit) : list sevent :=
   let '(out, _, ok) := check_input c (snd e) in
   if ok then match dc out with Some (s, p, _) => [(fst e, s, p)] | None => [] end else [].
@@ -1159,7 +1159,7 @@ Definition sevent_eqb (a b : sevent) : bool :=
 Definition is_nil {A} (l : list A) : bool := match l with [] => true | _ :: _ => false end.
 
 (* the property on what the implementation did. After every pass: the events that reached the output since the job was
-   added = the admitted, decodable lines of everything readable behind the start position p0, each line of stream s exactly
+   added = the accepted, decodable lines of everything readable behind the start position p0, each line of stream s exactly
    when s has no saved offset or the line ends ABOVE saved(s), once, in the order of the file (per stream: the order of
    arrival), with its offset; position and tail are the specification's. Saved offsets behind the end of the file: the
    pass delivers nothing and the job starts over at 0 with every saved offset 0. *)
